@@ -120,12 +120,27 @@ def rebuild_state(doc, factory):
 
 
 def replay_per_state(doc, fn, factory=None):
+    """rebuild the state through the real API and evaluate fn on it; fn is also evaluated on every state along the history
+    first (in one process), so that a defect living in process-wide state -- a module-level memo filled while an earlier
+    state was examined -- has the context it needs"""
     outs = []
     for _ in range(2):
-        sysm, snap, model = rebuild_hex_state(doc) if factory is None else rebuild_state(doc, factory)
-        o = fn(sysm, snap, model)
-        outs.append(sorted({v["check"] for v in o.viols}))
+        found = set()
+        hist = doc["history"]
+        for cut in range(1, len(hist) + 1):
+            d2 = dict(doc)
+            d2["history"] = hist[:cut]
+            sysm, snap, model = rebuild_hex_state(d2) if factory is None else rebuild_state(d2, factory)
+            if cut == len(hist):
+                # ... and on the states one transition away (the same trie after one more update), then on the state itself
+                for ev in sysm.events(snap, model):
+                    st = sysm.step(snap, model, ev)
+                    if st is not None and st.snap is not None:
+                        found |= {v["check"] for v in fn(sysm, st.snap, st.model).viols}
+            o = fn(sysm, snap, model)
+            found |= {v["check"] for v in o.viols}
+        outs.append(sorted(found))
     if outs[0] != outs[1]:
         raise HarnessError("replay is not deterministic")
-    print("replayed state; failing checks:", outs[0])
+    print("replayed state (and the states along its history); failing checks:", outs[0])
     return doc["check"] in outs[0]
